@@ -29,7 +29,7 @@ class Query:
     def __init__(self, name, src, entry, defines=None, unwind=None, unwindset=None, replace=None,
                  safety=True, extra=None, backends=("cadical", "minisat"), timeout=600, mem_gb=8,
                  big_endian=False, isr=None, includes=None, replay=True, desc="", bounds=None,
-                 unwind_fail_is_violation=False, no_std_checks=False, expect_witness=True, remove_bodies=None):
+                 unwind_fail_is_violation=False, no_std_checks=False, expect_witness=True, remove_bodies=None, safety_for=("C01", "C18")):
         self.name = name; self.src = src; self.entry = entry
         self.defines = list(defines or []); self.unwind = unwind; self.unwindset = list(unwindset or [])
         self.replace = dict(replace or {}); self.safety = safety; self.extra = list(extra or [])
@@ -40,6 +40,7 @@ class Query:
         self.no_std_checks = no_std_checks
         self.expect_witness = expect_witness
         self.remove_bodies = list(remove_bodies or [])
+        self.safety_for = tuple(safety_for)
 
 
 class QResult:
